@@ -29,12 +29,13 @@ const (
 	rQuiesce // harness checkpoint: served only when nothing else is enabled at this instant
 	rScribble
 	rYield
+	rSetBuf
 )
 
 var kindNames = map[reqKind]string{
 	rStart: "start", rTaskEnd: "task-end", rNote: "note", rListenUDP: "listen-udp", rDial: "dial", rDialWait: "dial-wait",
 	rClose: "close", rSetDeadline: "set-deadline", rWrite: "write", rRead: "read", rSleep: "sleep", rLock: "lock",
-	rUnlock: "unlock", rRLock: "rlock", rRUnlock: "runlock", rPoint: "point", rQuiesce: "quiesce", rScribble: "scribble", rYield: "yield",
+	rUnlock: "unlock", rRLock: "rlock", rRUnlock: "runlock", rPoint: "point", rQuiesce: "quiesce", rScribble: "scribble", rYield: "yield", rSetBuf: "set-rcvbuf",
 }
 
 type req struct {
@@ -142,6 +143,8 @@ type Socket struct {
 	reuse     bool
 	closed    bool
 	q         []dgram
+	qbytes    int           // receive-buffer memory charged for the queued datagrams
+	rcvbuf    int           // SO_RCVBUF as the kernel keeps it
 	rdl, wdl  time.Duration // -1: none
 	cdl       time.Duration // connect deadline
 	pendErr   syscall.Errno // ICMP
@@ -293,7 +296,7 @@ func (s *Sim) bind(proto string, want netip.AddrPort, reuse bool) (netip.AddrPor
 func (s *Sim) newSocket(r *req, proto string, local, remote netip.AddrPort, connected bool) *Socket {
 	k := &Socket{
 		ID: len(s.socks) + 1, Proto: proto, Connected: connected, local: local, remote: remote,
-		reuse: r.reuse, rdl: -1, wdl: -1, cdl: -1, opened: s.now, closedAt: -1,
+		reuse: r.reuse, rdl: -1, wdl: -1, cdl: -1, opened: s.now, closedAt: -1, rcvbuf: DefaultRcvbuf,
 	}
 	if r.g != nil {
 		k.Task = r.g.Task
@@ -303,6 +306,16 @@ func (s *Sim) newSocket(r *req, proto string, local, remote netip.AddrPort, conn
 	s.socks = append(s.socks, k)
 	return k
 }
+
+// Receive-buffer accounting as Linux does it: every queued datagram is charged its payload plus a fixed overhead
+// against SO_RCVBUF (net.core.rmem_default = 212992); a datagram that does not fit is dropped silently.
+// setsockopt(SO_RCVBUF, n) stores 2n, at least 2304 and at most 2*rmem_max.
+const (
+	DefaultRcvbuf = 212992
+	dgramOverhead = 768
+)
+
+func charge(n int) int { return dgramOverhead + n }
 
 func (s *Sim) opened(k *Socket) {
 	if s.cfg.World != nil {
@@ -436,6 +449,22 @@ func (s *Sim) complete(r *req, alt int) {
 		s.doWrite(r)
 	case rRead:
 		s.doRead(r, alt)
+	case rSetBuf:
+		k := r.sock
+		if k.closed {
+			s.reply(r, resp{err: &kerr{op: "set", kind: "closed"}})
+			break
+		}
+		v := 2 * r.n
+		if v < 2304 {
+			v = 2304
+		}
+		if v > 2*DefaultRcvbuf {
+			v = 2 * DefaultRcvbuf
+		}
+		k.rcvbuf = v
+		s.logG(r.g, Ev{Kind: "set-rcvbuf", Sock: k.ID, N: v})
+		s.reply(r, resp{})
 	default:
 		s.reply(r, resp{})
 	}
@@ -677,6 +706,9 @@ func (s *Sim) doRead(r *req, alt int) {
 	if len(k.q) > 0 {
 		d := k.q[0]
 		k.q = k.q[1:]
+		if k.Proto == "udp" {
+			k.qbytes -= charge(len(d.data))
+		}
 		n := len(d.data)
 		if n > r.n {
 			n = r.n // the rest of the datagram is discarded, as recvfrom(2) does
@@ -748,6 +780,18 @@ func (s *Sim) DeliverUDP(from, dst netip.AddrPort, payload []byte, note string) 
 	if len(cands) > 1 {
 		k = cands[s.aux.Intn(len(cands))]
 	}
+	if c := charge(len(data)); k.qbytes+c > k.rcvbuf {
+		// receive buffer full: the kernel drops the datagram. Whether it would have fitted in a buffer of the
+		// default size tells whose doing that is (the environment's, or the library's for shrinking the buffer)
+		why := "rcvbuf"
+		if k.qbytes+c <= DefaultRcvbuf {
+			why = "rcvbuf-shrunk"
+		}
+		s.Stats["udp-lost:"+why]++
+		s.Log(Ev{Kind: "udp-lost", Task: k.Task, Step: k.Step, Sock: k.ID, Src: from.String(), Dst: dst.String(), N: len(data), Data: data, Note: note, Err: why})
+		return nil
+	}
+	k.qbytes += charge(len(data))
 	k.q = append(k.q, dgram{from: from, data: data, at: s.now, tag: note})
 	s.Log(Ev{Kind: "udp-arrive", Task: k.Task, Step: k.Step, Sock: k.ID, Src: from.String(), Dst: dst.String(), N: len(data), Data: data, Note: note})
 	return k
